@@ -265,11 +265,24 @@ def run_case(spec, j):
           if spec['prep']:
             # probe through formed pairs: a preprocessor is not consulted
             Qarg = Q
-          for key, val in k.items():
-            if isinstance(val, np.ndarray) and hasattr(est, key + '_'):
-              j.check('C17.fitted-state-not-aliased',
-                      not np.shares_memory(getattr(est, key + '_'), val),
-                      dict(det, argument=key))
+          # no fitted array may share memory with an argument or an
+          # array-valued hyper-parameter (the caller may change those later);
+          # preprocessor_ is a data source, not part of the model
+          owned = [(('arg%d' % ai), v) for ai, v in enumerate(a)] + \
+              list(k.items()) + [(kk, vv) for kk, vv in
+                                 est.get_params(deep=False).items()
+                                 if kk != 'preprocessor']
+          owned = [(kk, vv) for kk, vv in owned if isinstance(vv, np.ndarray)]
+          aliased = []
+          for attr, fv in vars(est).items():
+            if attr.startswith('_') or attr == 'preprocessor_' or \
+                    not attr.endswith('_') or not isinstance(fv, np.ndarray):
+              continue
+            for kk, vv in owned:
+              if np.shares_memory(fv, vv):
+                aliased.append((attr, kk))
+          j.check('C17.fitted-state-not-aliased', not aliased,
+                  dict(det, aliased=aliased))
           tw = replay_twin()
           mon = 'C17.repeat-fit' if (op == 'repeat-fit' or prev == i) \
               else 'C17.history-independent'
